@@ -68,6 +68,10 @@ impl AsInt for core::cmp::Ordering {
     }
 }
 
+impl AsInt for IsPrime {
+    open spec fn as_int(&self) -> int { match *self { IsPrime::No => 0, IsPrime::Probably => 1, IsPrime::Yes => 2 } }
+}
+
 /// `Integer::from(x)` for a primitive, an Integer or one of rug's incomplete values (all Integer here)
 #[verifier::external_body]
 pub fn int_from<T: AsInt>(x: T) -> (r: Integer)
